@@ -8,6 +8,7 @@ import (
 	"testing"
 
 	"github.com/tsenart/vegeta/v12/internal/simrt"
+	vegeta "github.com/tsenart/vegeta/v12/lib"
 )
 
 var scenarios = map[string]func(cfg *simrt.Config) simrt.RunFn{}
@@ -49,6 +50,8 @@ type run struct {
 	stats  map[string]int
 	infra  string
 	shape  string
+	rep    vegeta.Reporter // the reporter of the current history (report scenarios)
+	repHDR bool
 }
 
 func newRun(prop string, tape *simrt.Tape, keep bool) *run {
